@@ -1,5 +1,6 @@
-// UNIT nu_ops: the context scope of the `.cat` and `.head` commands a handler / command script runs with (C06) -- generated, do not
-// edit. Only the statements that choose the context are extracted; argument decoding and value conversion are nu-engine work.
+// UNIT nu_ops: the context scope of the `.cat` and `.head` commands a handler / command script runs with (C06), and the byte-stream
+// arm of write_pipeline_to_cas (C10) -- generated, do not edit. Only the statements that choose the context / copy the stream are
+// extracted; argument decoding and value conversion are nu-engine work.
 #![feature(allocator_api)]
 #![allow(unused_imports, dead_code, unused_variables, unused_mut, non_snake_case)]
 use vstd::prelude::*;
@@ -112,6 +113,74 @@ fn head_lookup(&self, topic: String, context_id: Scru128Id, Tracked(nx): Tracked
 }
 //@@ end
 }
+
+// ================= nu::util::write_pipeline_to_cas, the ByteStream arm (C10): a byte stream handed to `.append` is stored whole =================
+#[derive(Debug)] pub struct IoError { pub _p: () }
+impl std::fmt::Display for IoError { #[verifier::external_body] fn fmt(&self, f: &mut std::fmt::Formatter) -> std::fmt::Result { unimplemented!() } }
+pub proof fn axiom_fmt_req_io() ensures vstd::std_specs::fmt::fmt_req_all::<IoError>() { admit(); }
+#[verifier::external_body] pub struct Integrity { _p: () }
+// ghost model of one call: the bytes the stream will still yield, what was given to the CAS writer, what was committed
+pub struct Wx { pub ghost rest: Seq<u8>, pub ghost written: Seq<u8>, pub ghost commits: Seq<(Integrity, Seq<u8>)> }
+#[verifier::external_body] pub struct ByteStream { _p: () }
+#[verifier::external_body] pub struct StreamReader { _p: () }
+#[verifier::external_body] pub struct SyncWriter { _p: () }
+impl ByteStream {
+    // stream.reader(): None for an empty stream
+    #[verifier::external_body]
+    pub fn reader(self, Tracked(wx): Tracked<&Wx>) -> (r: Option<StreamReader>) ensures r is None ==> wx.rest.len() == 0 { unimplemented!() }
+}
+impl StreamReader {
+    // std::io::Read::read (ASSUMED): copies a non-empty prefix of what is left into the buffer, as much as it likes; 0 only at the end
+    #[verifier::external_body]
+    pub fn read(&mut self, Tracked(wx): Tracked<&mut Wx>, buf: &mut [u8; 8192]) -> (r: Result<usize, IoError>)
+        ensures final(wx).written == old(wx).written, final(wx).commits == old(wx).commits,
+            match r {
+                Ok(n) => n <= 8192 && n <= old(wx).rest.len() && (n == 0 <==> old(wx).rest.len() == 0)
+                    && final(buf)@.take(n as int) == old(wx).rest.take(n as int) && final(wx).rest == old(wx).rest.skip(n as int),
+                Err(_) => final(wx).rest == old(wx).rest,
+            },
+    { unimplemented!() }
+}
+impl SyncWriter {
+    #[verifier::external_body]
+    pub fn write_all(&mut self, Tracked(wx): Tracked<&mut Wx>, data: &[u8]) -> (r: Result<(), IoError>)
+        ensures final(wx).rest == old(wx).rest, final(wx).commits == old(wx).commits,
+            r is Ok ==> final(wx).written == old(wx).written + data@,
+    { unimplemented!() }
+    #[verifier::external_body]
+    pub fn commit(self, Tracked(wx): Tracked<&mut Wx>) -> (r: Result<Integrity, IoError>)
+        ensures final(wx).rest == old(wx).rest, final(wx).written == old(wx).written,
+            match r { Ok(h) => final(wx).commits == old(wx).commits.push((h, old(wx).written)), Err(_) => final(wx).commits == old(wx).commits },
+    { unimplemented!() }
+}
+#[verifier::external_body]
+pub fn buf_prefix(buf: &[u8; 8192], n: usize) -> (r: &[u8]) requires n <= 8192 ensures r@ == buf@.take(n as int) { unimplemented!() }
+//@@ slice file=src/nu/util.rs fn=write_pipeline_to_cas name=byte_stream_to_cas
+//@@ from: if let Some(mut reader) = stream.reader()
+//@@ through: Ok(Some(hash))
+//@@ rewrite: "I/O Error".into() ==> "I/O Error".to_string()
+//@@ rewrite: &buffer[..bytes_read] ==> buf_prefix(&buffer, bytes_read)
+//@@ after_all: stream.reader( ==> Tracked(wx)
+//@@ after_all: reader.read( ==> Tracked(wx),
+//@@ after_all: writer.write_all( ==> Tracked(wx),
+//@@ after_all: writer.commit( ==> Tracked(wx)
+//@@ loop_spec: loop {
+    invariant
+        wx.commits == old(wx).commits, wx.written + wx.rest =~= old(wx).written + old(wx).rest,
+//@@ header
+#[verifier::exec_allows_no_decreases_clause]
+#[verifier::loop_isolation(false)]
+fn byte_stream_to_cas(stream: ByteStream, mut writer: SyncWriter, span: Span, Tracked(wx): Tracked<&mut Wx>) -> (r: Result<Option<Integrity>, Box<ShellError>>)
+    ensures
+        // whatever sizes the reads come in, what is committed is everything the stream yields (after what was already written)
+        r matches Ok(Some(h)) ==> final(wx).commits == old(wx).commits.push((h, old(wx).written + old(wx).rest)), //# nu.append.byte_stream_stored_whole
+        r is Err ==> final(wx).commits == old(wx).commits, //# nu.append.byte_stream_error_commits_nothing
+        r matches Ok(o) ==> o is Some,
+{
+    proof { axiom_fmt_req_io(); }
+//@@ epilogue
+}
+//@@ end
 
 proof fn canary_must_fail() { assert(false); } //# canary.nu_ops
 
